@@ -196,4 +196,68 @@ theorem daysOf_prevDay (y m d : Int) (hv : validDate y m d = true) : daysOf (pre
   simp only at hs
   omega
 
+/-! ### the inverse formula steps too; every integer is the day number of its civil date -/
+
+theorem civilFromDays_succ (z : Int) : civilFromDays (z + 1) = nextDay (civilFromDays z) := by
+  have hv := civilFromDays_valid z
+  have hs := daysOf_nextDay _ _ _ hv
+  rw [daysFromCivil_civilFromDays z] at hs
+  have hn := nextDay_validDate _ _ _ hv
+  have hr := civilFromDays_daysFromCivil _ _ _ hn
+  unfold daysOf at hs
+  rw [hs] at hr
+  exact hr
+
+theorem civilFromDays_pred (z : Int) : civilFromDays (z - 1) = prevDay (civilFromDays z) := by
+  have h := civilFromDays_succ (z - 1)
+  rw [show z - 1 + 1 = z by omega] at h
+  have hv := civilFromDays_valid (z - 1)
+  have := prevDay_nextDay_of_valid _ _ _ hv
+  rw [show ((civilFromDays (z - 1)).1, (civilFromDays (z - 1)).2.1, (civilFromDays (z - 1)).2.2) = civilFromDays (z - 1) from rfl,
+    ← h] at this
+  exact this.symm
+
+theorem civilFromDays_zero : civilFromDays 0 = epoch := by decide
+
+theorem isDayNumber_civilFromDays_nat (n : Nat) :
+    IsDayNumber (civilFromDays n) n ∧ IsDayNumber (civilFromDays (-(n : Int))) (-(n : Int)) := by
+  induction n with
+  | zero => exact ⟨by rw [show ((0 : Nat) : Int) = 0 from rfl, civilFromDays_zero]; exact .epoch,
+      by rw [show (-((0 : Nat) : Int)) = 0 from rfl, civilFromDays_zero]; exact .epoch⟩
+  | succ n ih =>
+    constructor
+    · have := IsDayNumber.next ih.1
+      rw [← civilFromDays_succ] at this
+      rw [show ((n + 1 : Nat) : Int) = (n : Int) + 1 by omega]; exact this
+    · have := IsDayNumber.prev ih.2
+      rw [← civilFromDays_pred] at this
+      rw [show -((n + 1 : Nat) : Int) = -(n : Int) - 1 by omega]; exact this
+
+/-- every integer `z` is the day number (in the sense of the independent specification) of `civilFromDays z` -/
+theorem isDayNumber_civilFromDays (z : Int) : IsDayNumber (civilFromDays z) z := by
+  by_cases h : 0 ≤ z
+  · obtain ⟨n, rfl⟩ := Int.eq_ofNat_of_zero_le h
+    exact (isDayNumber_civilFromDays_nat n).1
+  · obtain ⟨n, hn⟩ := Int.eq_ofNat_of_zero_le (show 0 ≤ -z by omega)
+    have := (isDayNumber_civilFromDays_nat n).2
+    rw [← hn, show - -z = z by omega] at this
+    exact this
+
+/-- the closed formula computes the day number of every valid date -/
+theorem isDayNumber_daysFromCivil (y m d : Int) (hv : validDate y m d = true) : IsDayNumber (y, m, d) (daysFromCivil y m d) := by
+  have := isDayNumber_civilFromDays (daysFromCivil y m d)
+  rwa [civilFromDays_daysFromCivil y m d hv] at this
+
+/-- conversely: whatever the specification relates is a valid date and the number the formula computes -/
+theorem isDayNumber_sound {dt : Date} {n : Int} (h : IsDayNumber dt n) :
+    validDate dt.1 dt.2.1 dt.2.2 = true ∧ n = daysOf dt := by
+  induction h with
+  | epoch => exact ⟨by decide, by decide⟩
+  | @next dt n _ ih =>
+    obtain ⟨hv, hn⟩ := ih
+    exact ⟨nextDay_validDate _ _ _ hv, by rw [show nextDay dt = nextDay (dt.1, dt.2.1, dt.2.2) from rfl, daysOf_nextDay _ _ _ hv, hn]; rfl⟩
+  | @prev dt n _ ih =>
+    obtain ⟨hv, hn⟩ := ih
+    exact ⟨prevDay_validDate _ _ _ hv, by rw [show prevDay dt = prevDay (dt.1, dt.2.1, dt.2.2) from rfl, daysOf_prevDay _ _ _ hv, hn]; rfl⟩
+
 end SaModel.Codec
